@@ -143,7 +143,7 @@ func init() {
 		net/netip internal/godebug internal/race internal/cpu net/http/internal/ascii golang.org/x/net/http/httpguts mime
 		github.com/fatih/color github.com/mattn/go-colorable github.com/mattn/go-isatty encoding/json
 		crypto/md5 crypto/sha1 crypto/sha256 crypto/sha512 crypto/hmac crypto/subtle hash/maphash
-		github.com/goccy/go-yaml os/exec log
+		github.com/goccy/go-yaml os/exec log internal/filepathlite internal/bytealg
 		go.elara.ws/pcre`) {
 		interpretStd[p] = true
 	}
